@@ -157,6 +157,16 @@ def run(ctx):
     from . import c02
 
     ctx.section(c02._typewalk, ctx, index, "C01.typewalk")
+
+    def _sec_inputmut():
+        # the second rendering of one interface description must see what the first saw: the docstring emitter does not
+        # rewrite the caller's parameter docs ("Defaults to ..." appended in place would be taken for prose next time)
+        from . import c10
+
+        f_ = index.func("cdd.docstring.emit.docstring")
+        c10.inputmut_rule(ctx, "C01.inputmut", [(f_, f_.params[0])], "a second rendering of the same object starts from descriptions the first one rewrote")
+
+    ctx.section(_sec_inputmut)
     # "rendering ... and parsing back" is quantified over interfaces, not over processes: one parse must not leave
     # anything behind for the next (a memo, a flag on a module-level function, a shared default). C10's call-history
     # rules on the docstring emitter / parser slice.
